@@ -22,6 +22,7 @@ import CijModel.Ops.C09
 import CijModel.Ops.C18
 import CijModel.Ops.C14
 import CijModel.Ops.C13
+import CijModel.Ops.C02
 open Lean Cij.Wire
 
 def handlers : List Handler := [
@@ -43,7 +44,8 @@ def handlers : List Handler := [
   Cij.Ops.C09.handle,
   Cij.Ops.C18.handle,
   Cij.Ops.C14.handle,
-  Cij.Ops.C13.handle
+  Cij.Ops.C13.handle,
+  Cij.Ops.C02.handle
 ]
 
 def dispatch (line : String) : Json :=
